@@ -374,8 +374,18 @@ def c_see(site, fx):
 
 
 def c_tt_index(site, fx):
-    return site.family in ("index", "unchecked") and in_fn(site, "TranspositionTable::insert", "TranspositionTable::get") and \
-        any(find_calls(o, "TranspositionTable::get_entry_idx") for o in site.ops)
+    if site.family not in ("index", "unchecked") or "transposition_table::TranspositionTable" not in bn(site):
+        return False
+    if any(find_calls(o, "TranspositionTable::get_entry_idx") for o in site.ops):
+        return True
+    # a private helper of the table that is handed the slot index: every caller passes get_entry_idx(key)
+    for o in site.ops:
+        d = deep_strip(o)
+        if isinstance(d, tuple) and d[:1] == ("arg",) and isinstance(d[1], int):
+            callers = [c for c in fx.callers_of(lambda n: fx.body(n) is not None and fx.body(n).name == site.body.name) if "::tests::" not in c[0].name]
+            if callers and all(d[1] <= len(t["args"]) and find_calls(cb.expr(t["args"][d[1] - 1], expand_named=True, at=bb), "TranspositionTable::get_entry_idx") for (cb, bb, t) in callers):
+                return True
+    return False
 
 
 def c_tt_rem(site, fx):
